@@ -78,3 +78,18 @@ package stgutg
 //@ behavior argc3
 //@ shape args 3
 //@ ensures none: result == 0
+
+// ---- C16: per-UE identity ----
+// SUPI = "imsi-" || decimal(parse(imsi)+ueNumber) zero-padded to the width of the configured IMSI;
+// RAN-UE-NGAP-ID = (parse(imsi)+ueNumber) mod 10^4; the configured credentials and (NEA0, NIA2).
+//@ func CreateUE
+//@ prop C16
+//@ shape imsi 15
+//@ requires digits: vc.Forall(0, 15, func(i int) bool { return '0' <= imsi[i] && imsi[i] <= '9' })
+//@ requires index: 0 <= ueNumber && ueNumber < 10000
+//@ ensures nonnil: result != nil
+//@ ensures supi: result.Supi == "imsi-"+strspec.FormatDec(strspec.Value(imsi)+ueNumber, 15)
+//@ ensures ranid: result.RanUeNgapId == int64((strspec.Value(imsi)+ueNumber)%10000)
+//@ ensures algs: result.CipheringAlg == 0 && result.IntegrityAlg == 2
+//@ ensures creds: result.AuthenticationSubs.PermanentKey != nil && result.AuthenticationSubs.PermanentKey.PermanentKeyValue == K && result.AuthenticationSubs.Opc != nil && result.AuthenticationSubs.Opc.OpcValue == OPC && result.AuthenticationSubs.Milenage != nil && result.AuthenticationSubs.Milenage.Op != nil && result.AuthenticationSubs.Milenage.Op.OpValue == OP
+//@ ensures fresh: result.ULCount.Get() == 0 && result.DLCount.Get() == 0 && result.AmfUeNgapId == 0
